@@ -78,12 +78,12 @@ CLAIMS = {
         technique="generated call-site contracts incl. always-panics contracts (Kani/CBMC SAT + cvc5)", ref="5 C13"),
     "C14": dict(
         text="Every as_*/From/TryFrom/extend/truncate/from_vec4 between vector types found in the source, lane by lane against the Rust primitive conversion, all source bit patterns.",
-        note=TB + "Quick tier: float-source and SIMD types; thorough: all 40 types.",
+        note=TB + "Quick and thorough tier: all 40 types.",
         technique="generated full-domain call-site contracts (Kani/CBMC SAT)", ref="5 C14"),
     "C15": dict(
         text="Mask types as data structures over the view [bool;N] with full-view postconditions, observers as functions of the view (recording Hasher), SIMD vs plain mask identity, "
              "integer cmp*, select on all vector types, always-panics for out-of-range test/set.",
-        note=TB + "float cmp* are C01 contracts; Debug/Display not decided.",
+        note=TB + "float cmp* for every operand bit pattern (sse2 and scalar builds), also woven C01 contracts; Debug/Display not decided.",
         technique="data-structure contracts over an abstract view (Kani/CBMC SAT)", ref="5 C15"),
     "C16": dict(
         text="Every swizzle getter/setter clause, generated from the method names found in the current source, discharged full-domain "
